@@ -39,7 +39,8 @@ class Solvers(object):
     @classmethod
     def scipy_lp(cls, p, G, h, A, b, *, method='highs-ds'):
         from scipy.optimize import linprog
-        res = linprog(p, A_ub=G, b_ub=h, A_eq=A, b_eq=b, method=method)
+        # no implicit bounds: scipy's default (0, None) would also force the free improvement margin to be non-negative
+        res = linprog(p, A_ub=G, b_ub=h, A_eq=A, b_eq=b, bounds=(None, None), method=method)
         return Result(
             solution=res.x,
             result=res,
